@@ -35,7 +35,7 @@ def rd(ctx, N, M=16, B=4, K=1, qN=None, tiers=("quick", "thorough"), labels=None
     return r
 
 
-RD_CONTEXTS_Q = [(0, 3), (1, 2), (2, 2), (3, 2), (6, 1), (4, 6), (5, 5), (7, 7), (11, 2), (12, 2), (16, 2), (17, 2), (24, 2), (25, 1), (26, 1), (52, 2), (57, 2), (60, 2)]
+RD_CONTEXTS_Q = [(0, 3), (1, 2), (2, 2), (3, 2), (6, 1), (4, 6), (5, 5), (7, 7), (8, 7), (11, 2), (12, 2), (16, 2), (17, 2), (24, 2), (25, 1), (26, 1), (52, 2), (57, 2), (60, 2)]
 
 def rdp(harness, ctx, N, picks, labels, covers=(), M=16, tiers=("quick", "thorough"), extra=None):
     r = rd(ctx, N, M=M, labels=labels, covers=covers, harness=harness, tiers=tiers, extra=extra)
@@ -49,7 +49,7 @@ RD_CONTEXTS_T = [(0, 4), (1, 3), (2, 3), (13, 1), (15, 2), (31, 2), (32, 3), (36
 CHECKS = {
     "C02": {
         "level": "model_checking",
-        "runs": [rd(c, n, labels=["C02:", "REF:"], covers=["complete"] if c not in (3, 6, 17, 25, 26, 57, 60) else []) for c, n in RD_CONTEXTS_Q] +
+        "runs": [rd(c, n, labels=["C02:", "REF:"], covers=["complete"] if c not in (3, 6, 8, 17, 25, 26, 57, 60) else []) for c, n in RD_CONTEXTS_Q] +
                 [rd(6, 2, K=k, labels=["C02:", "REF:"]) for k in (0, 2, 3)] +
                 [rd(27, 3, M=300, labels=["C02:", "REF:"], covers=["complete"], extra={"LITCAP": 2})] +
                 [rd(c, n, labels=["C02:", "REF:"], tiers=["thorough"]) for c, n in RD_CONTEXTS_T],
